@@ -30,6 +30,8 @@ pub struct Stats {
     pub files_created: usize,
     pub overflow: bool,
     pub faults_hit: usize,
+    pub period_changes_mid_batch: bool,
+    pub ticking_clock: bool,
 }
 
 #[derive(Default)]
@@ -164,6 +166,7 @@ pub fn judge(run: &Run, h: &Hist) -> V {
         }
     }
     v.stats.crash = !run.crashes.is_empty();
+    v.stats.ticking_clock = h.tick_ms > 0;
     v.stats.restart = !run.restarts.is_empty();
     v.stats.backward_clock = h.steps.iter().any(|s| matches!(s, Step::Clock(d) if *d < 0));
     v.stats.overflow = h.steps.iter().any(|s| matches!(s, Step::Batch { overflow_before: Some(_), .. }));
@@ -356,11 +359,20 @@ pub fn judge(run: &Run, h: &Hist) -> V {
             if is_own_name(n, &run.prefix, &run.ext) {
                 let rest = &n[run.prefix.len() + 1..n.len() - run.ext.len() - 1];
                 let parts: Vec<&str> = rest.split('.').collect();
-                if parts[0] != want_period {
-                    v.c11.push(f("C11/wrong-period-in-name", format!("file {n} created at clock {} should carry period {want_period}", a.clock_ms)));
-                }
-                if parts[1] != format!("{:08}", want_counter) {
-                    v.c11.push(f("C11/wrong-counter-in-name", format!("file {n} created at clock {} should carry counter {:08}", a.clock_ms, want_counter)));
+                // period + counter must be those of ONE clock reading taken while the batch was processed
+                let fits = (a.clock_ms..=a.clock_end_ms.max(a.clock_ms)).step_by(1).take(200_000).any(|t| {
+                    let (p, c) = period(run.cfg.roll, t);
+                    parts[0] == p && parts[1] == format!("{:08}", c)
+                });
+                if !fits {
+                    if parts[0] != want_period && parts[0] != period(run.cfg.roll, a.clock_end_ms).0 {
+                        v.c11.push(f("C11/wrong-period-in-name", format!("file {n} created while the clock read {}..{} should carry period {want_period}", a.clock_ms, a.clock_end_ms)));
+                    } else {
+                        v.c11.push(f(
+                            "C11/wrong-counter-in-name",
+                            format!("file {n} created while the clock read {}..{}: period and counter are not those of one reading in that interval (at the start: {want_period} / {:08})", a.clock_ms, a.clock_end_ms, want_counter),
+                        ));
+                    }
                 }
             }
         }
@@ -369,7 +381,7 @@ pub fn judge(run: &Run, h: &Hist) -> V {
             if is_own_name(n, &run.prefix, &run.ext) {
                 let rest = &n[run.prefix.len() + 1..n.len() - run.ext.len() - 1];
                 let got_period = rest.split('.').next().unwrap_or("");
-                if got_period != want_period {
+                if got_period != want_period && got_period != period(run.cfg.roll, a.clock_end_ms).0 {
                     v.c11.push(f(
                         "C11/written-file-has-other-period",
                         format!("events written at clock {} (period {want_period}) went to {n}", a.clock_ms),
@@ -388,7 +400,11 @@ pub fn judge(run: &Run, h: &Hist) -> V {
         let attempt_fault_free = ops.iter().all(|o| o.fault.is_none() && o.outcome != OpOutcome::AfterCrash);
         if let (Some((pi, ppath)), Some(tp)) = (&prev_ok, &this_path) {
             // the previous attempt in this process was acknowledged and nothing failed since
-            if *pi + 1 == ai && a.attempt_no == 1 && attempt_fault_free {
+            let period_stable = period(run.cfg.roll, a.clock_end_ms).0 == want_period;
+            if !period_stable {
+                v.stats.period_changes_mid_batch = true;
+            }
+            if *pi + 1 == ai && a.attempt_no == 1 && attempt_fault_free && period_stable {
                 let prev = &run.attempts[*pi];
                 let (prev_period, _) = period(run.cfg.roll, prev.clock_ms);
                 let size_before: usize = prev.durable_after.get(ppath).map_or(0, |d| d.len());
